@@ -17,6 +17,7 @@
 //! the C2PA state is Valid/Trusted in all cases.
 //!
 //! Mutants caught (tools/mutant_run.sh I <diff> C33 quick):
+//!   /tmp/seed-C33/OUT/patch.diff (independently seeded: zip/fold hash comparison without a length check) -> keys `unreported tamper=signed-hash-length-*`
 //!   /verif/mutants/C33-partial-claim-labels-only.diff (check_against_partial_claim compares only labels)
 //!   /verif/mutants/C33-padding-unchecked.diff         (check_padding accepts any bytes)
 
@@ -69,6 +70,8 @@ enum Tamper {
     PayloadAddRole,
     /// validly signed altered payloads
     SignedHashFlip { j: usize },
+    /// validly signed payload whose entry j carries the claim's hash at another LENGTH: kind 0..3 = truncated to 0, 1, n/2, n-1 bytes; 4, 5 = extended by 1, n bytes
+    SignedHashLen { j: usize, kind: u8 },
     SignedUrlUnknown { j: usize },
     SignedDropHardBinding,
     SignedDuplicate { j: usize },
@@ -96,6 +99,7 @@ impl Tamper {
             Tamper::PayloadSigType => "payload-sigtype".into(),
             Tamper::PayloadAddRole => "payload-role".into(),
             Tamper::SignedHashFlip { .. } => "signed-hash-mismatch".into(),
+            Tamper::SignedHashLen { kind, .. } => format!("signed-hash-length-{}", ["empty", "1-byte", "half", "n-minus-1", "n-plus-1", "doubled"][(*kind as usize).min(5)]),
             Tamper::SignedUrlUnknown { .. } => "signed-url-not-in-claim".into(),
             Tamper::SignedDropHardBinding => "signed-no-hard-binding".into(),
             Tamper::SignedDuplicate { .. } => "signed-duplicate".into(),
@@ -115,6 +119,7 @@ impl Tamper {
             Tamper::PayloadDrop { j } => json!({"t":"payload-drop","j":j}),
             Tamper::PayloadDuplicate { j } => json!({"t":"payload-duplicate","j":j}),
             Tamper::SignedHashFlip { j } => json!({"t":"signed-hash-mismatch","j":j}),
+            Tamper::SignedHashLen { j, kind } => json!({"t":"signed-hash-length","j":j,"kind":kind}),
             Tamper::SignedUrlUnknown { j } => json!({"t":"signed-url-not-in-claim","j":j}),
             Tamper::SignedDuplicate { j } => json!({"t":"signed-duplicate","j":j}),
             Tamper::Pad1Byte { j } => json!({"t":"pad1","j":j}),
@@ -138,6 +143,7 @@ impl Tamper {
             "payload-sigtype" => Tamper::PayloadSigType,
             "payload-role" => Tamper::PayloadAddRole,
             "signed-hash-mismatch" => Tamper::SignedHashFlip { j },
+            "signed-hash-length" => Tamper::SignedHashLen { j, kind: v["kind"].as_u64()? as u8 },
             "signed-url-not-in-claim" => Tamper::SignedUrlUnknown { j },
             "signed-no-hard-binding" => Tamper::SignedDropHardBinding,
             "signed-duplicate" => Tamper::SignedDuplicate { j },
@@ -160,7 +166,7 @@ impl Tamper {
         })
     }
     fn is_signed_variant(&self) -> bool {
-        matches!(self, Tamper::SignedHashFlip { .. } | Tamper::SignedUrlUnknown { .. } | Tamper::SignedDropHardBinding | Tamper::SignedDuplicate { .. } | Tamper::ReencodeOnly)
+        matches!(self, Tamper::SignedHashFlip { .. } | Tamper::SignedHashLen { .. } | Tamper::SignedUrlUnknown { .. } | Tamper::SignedDropHardBinding | Tamper::SignedDuplicate { .. } | Tamper::ReencodeOnly)
     }
 }
 
@@ -196,6 +202,10 @@ fn edit_refs_struct(t: &Tamper, p: &mut SignerPayload) {
             h[0] ^= 1;
             p.referenced_assertions[*j] = HashedUri::new(e.url(), e.alg(), &h);
         }
+        Tamper::SignedHashLen { j, kind } if *j < n => {
+            let e = p.referenced_assertions[*j].clone();
+            p.referenced_assertions[*j] = HashedUri::new(e.url(), e.alg(), &relength(&e.hash(), *kind));
+        }
         Tamper::SignedUrlUnknown { j } if *j < n => {
             let e = p.referenced_assertions[*j].clone();
             p.referenced_assertions[*j] = HashedUri::new(format!("{}X", e.url()), e.alg(), &e.hash());
@@ -206,6 +216,27 @@ fn edit_refs_struct(t: &Tamper, p: &mut SignerPayload) {
             p.referenced_assertions.push(e);
         }
         _ => {}
+    }
+}
+
+/// The claim's hash at another length (see Tamper::SignedHashLen).
+fn relength(h: &[u8], kind: u8) -> Vec<u8> {
+    let n = h.len();
+    match kind {
+        0 => vec![],
+        1 => h[..n.min(1)].to_vec(),
+        2 => h[..n / 2].to_vec(),
+        3 => h[..n.saturating_sub(1)].to_vec(),
+        4 => {
+            let mut v = h.to_vec();
+            v.push(0x5A);
+            v
+        }
+        _ => {
+            let mut v = h.to_vec();
+            v.extend_from_slice(h);
+            v
+        }
     }
 }
 
@@ -392,6 +423,13 @@ fn apply(t: &Tamper, genuine: &[u8], claim: &PartialClaim, seen: &mut Seen) -> R
             let a = refs_mut(&mut v)?;
             match a.get_mut(*j).and_then(|e| e.get_mut("hash")) {
                 Some(V::B(h)) if !h.is_empty() => h[0] ^= 1,
+                _ => return Err("no such referenced entry".into()),
+            }
+        }
+        Tamper::SignedHashLen { j, kind } => {
+            let a = refs_mut(&mut v)?;
+            match a.get_mut(*j).and_then(|e| e.get_mut("hash")) {
+                Some(V::B(h)) => *h = relength(h, *kind),
                 _ => return Err("no such referenced entry".into()),
             }
         }
@@ -741,7 +779,7 @@ pub fn run(run: &Run, replay: Option<&Value>) {
     run.rule(
         "identity assertion over every subset of 3 referenceable assertions (hard binding always referenced); tampering alphabet applied before C2PA signing: every byte k of the \
          identity signature XOR {01} (quick: all-referenced subset; thorough: every subset, and XOR {80,FF} too for the empty and the full subset); every referenced entry j x {hash flip, url swap, drop, duplicate}, add entry, \
-         sig_type, role (payload edited after identity signing); validly signed altered payloads {hash flip j, unknown url j, no hard binding, duplicate j}; every byte of pad1 (quick: first 64, last 64, every 16th; thorough: all, for the empty and the full subset) and pad2 set \
+         sig_type, role (payload edited after identity signing); validly signed altered payloads {hash flip j, hash of entry j truncated to 0/1/n/2/n-1 bytes or extended by 1/n bytes, unknown url j, no hard binding, duplicate j}; every byte of pad1 (quick: first 64, last 64, every 16th; thorough: all, for the empty and the full subset) and pad2 set \
          to 01; structural damage (5 key renames, 2 retypings); zero-padding redistribution (recorded only). Each output read by the default Reader and by post_validate_async(CawgValidator). \
          non-trivial = tampered cases that were signed and read.",
     );
@@ -813,6 +851,9 @@ pub fn run(run: &Run, replay: Option<&Value>) {
             cases.push((mask, Tamper::PayloadDrop { j }));
             cases.push((mask, Tamper::PayloadDuplicate { j }));
             cases.push((mask, Tamper::SignedHashFlip { j }));
+            for kind in 0..6u8 {
+                cases.push((mask, Tamper::SignedHashLen { j, kind }));
+            }
             cases.push((mask, Tamper::SignedUrlUnknown { j }));
             cases.push((mask, Tamper::SignedDuplicate { j }));
         }
